@@ -1,6 +1,316 @@
-"""Bounded stand-in for C09 (filled in below)."""
-NATIVE = []
+"""
+Bounded stand-in for C09: real IRDL constraints built from generated description trees, compared with a reference evaluator written
+from the statement ("a union accepts what some alternative accepts, an intersection what all accept, base/equality/set/parametrized
+constraints check class and parameters, variables require all occurrences to be equal"), plus
+  * union simplification / merging: AnyOf.get(...), `|`, `&` accept exactly what the un-simplified description accepts,
+  * inference: can_infer(vars) => infer(ctx) is accepted by the constraint in that context,
+  * type hints: irdl_to_attr_constraint(hint).verifies(a) == isa(a, hint) for hints over generic attribute classes.
+Bound: trees of depth <= 3 over 8 constraint kinds, 22 attribute values of 12 classes (falsy ones included: IntAttr(0), empty
+ArrayAttr, empty StringAttr), seeded.
+"""
+
+from __future__ import annotations
+
+import random
+
+from contracts.common import rechecked
+
+
+def pool():
+    from xdsl.dialects.builtin import (ArrayAttr, ComplexType, DictionaryAttr, FloatAttr, IndexType, IntAttr, IntegerAttr, IntegerType,
+                                       Signedness, StringAttr, TupleType, UnitAttr, f32, f64, i32, i64)
+
+    return [IntAttr(0), IntAttr(1), IntAttr(7), StringAttr(""), StringAttr("a"), ArrayAttr([]), ArrayAttr([IntAttr(1)]), ArrayAttr([IntAttr(0), StringAttr("x")]),
+            i32, i64, IntegerType(8, Signedness.SIGNED), IndexType(), f32, f64, IntegerAttr(0, i32), IntegerAttr(1, i32), IntegerAttr(0, i64),
+            FloatAttr(1.0, f32), ComplexType(f32), ComplexType(f64), TupleType([i32, f32]), UnitAttr(), DictionaryAttr({})]
+
+
+def classes():
+    from xdsl.dialects.builtin import ArrayAttr, ComplexType, IntAttr, IntegerAttr, IntegerType, StringAttr
+    from xdsl.ir import Attribute, TypeAttribute
+
+    # (class, number of parameters or None if not parametrized / unknown)
+    return [(IntAttr, None), (StringAttr, None), (ArrayAttr, None), (IntegerType, 2), (IntegerAttr, 2), (ComplexType, 1), (TypeAttribute, None), (Attribute, None)]
+
+
+# ------------------------------------------------------------------ description trees
+def gen_desc(rnd, depth, attrs, var_names=("T", "U"), var_defs=None):
+    """A constraint variable is given ONE inner constraint per tree (every occurrence of T carries the same constraint, as in real definitions)."""
+    if var_defs is None:
+        var_defs = {}
+    kinds = ["any", "eq", "set", "base", "param", "var", "allof", "anyof"] if depth > 0 else ["any", "eq", "set", "base"]
+    if not var_names:
+        kinds = [x for x in kinds if x != "var"]
+    k = rnd.choice(kinds)
+    if k == "any":
+        return ("any",)
+    if k == "eq":
+        return ("eq", rnd.randrange(len(attrs)))
+    if k == "set":
+        return ("set", tuple(sorted(rnd.sample(range(len(attrs)), rnd.randrange(1, 4)))))
+    if k == "base":
+        return ("base", rnd.randrange(len(classes())))
+    if k == "param":
+        ci = rnd.choice([i for i, (_, n) in enumerate(classes()) if n])
+        n = classes()[ci][1]
+        n_used = n if rnd.random() < 0.85 else rnd.choice([max(n - 1, 0), n + 1])  # sometimes a wrong arity: must reject, not crash
+        return ("param", ci, tuple(gen_desc(rnd, depth - 1, attrs, var_names, var_defs) for _ in range(n_used)))
+    if k == "var":
+        name = rnd.choice(var_names)
+        if name not in var_defs:
+            var_defs[name] = gen_desc(rnd, min(depth - 1, 1), attrs, (), var_defs)  # variable-free inner constraint
+        return ("var", name, var_defs[name])
+    subs = tuple(gen_desc(rnd, depth - 1, attrs, var_names, var_defs) for _ in range(rnd.randrange(1, 4)))
+    return (k, subs)
+
+
+def build(desc, attrs):
+    from xdsl.irdl import AllOf, AnyAttr, AnyOf, AttrSetConstraint, BaseAttr, EqAttrConstraint, ParamAttrConstraint, VarConstraint
+
+    k = desc[0]
+    if k == "any":
+        return AnyAttr()
+    if k == "eq":
+        return EqAttrConstraint(attrs[desc[1]])
+    if k == "set":
+        return AttrSetConstraint(frozenset(attrs[i] for i in desc[1]))
+    if k == "base":
+        return BaseAttr(classes()[desc[1]][0])
+    if k == "param":
+        return ParamAttrConstraint(classes()[desc[1]][0], tuple(build(d, attrs) for d in desc[2]))
+    if k == "var":
+        return VarConstraint(desc[1], build(desc[2], attrs))
+    if k == "allof":
+        return AllOf(tuple(build(d, attrs) for d in desc[1]))
+    if k == "anyof":
+        return AnyOf(tuple(build(d, attrs) for d in desc[1]))  # may raise PyRDLError (overlapping alternatives): such trees are skipped
+    raise ValueError(k)
+
+
+def ref(desc, a, ctx, attrs):
+    """Reference semantics: returns (accepted, ctx') ; ctx is a dict name -> attribute (functional)."""
+    k = desc[0]
+    if k == "any":
+        return True, ctx
+    if k == "eq":
+        return a == attrs[desc[1]], ctx
+    if k == "set":
+        return any(a == attrs[i] for i in desc[1]), ctx
+    if k == "base":
+        return isinstance(a, classes()[desc[1]][0]), ctx
+    if k == "param":
+        cls = classes()[desc[1]][0]
+        if not isinstance(a, cls):
+            return False, ctx
+        ps = a.parameters
+        if len(ps) != len(desc[2]):
+            return False, ctx
+        for d, p in zip(desc[2], ps):
+            ok, ctx = ref(d, p, ctx, attrs)
+            if not ok:
+                return False, ctx
+        return True, ctx
+    if k == "var":
+        if desc[1] in ctx:
+            return a == ctx[desc[1]], ctx
+        ok, ctx = ref(desc[2], a, ctx, attrs)
+        if not ok:
+            return False, ctx
+        return True, dict(ctx, **{desc[1]: a})
+    if k == "allof":
+        allok = True
+        for d in desc[1]:
+            ok, ctx = ref(d, a, ctx, attrs)  # (the real AllOf keeps going after a failure; acceptance is the conjunction)
+            allok = allok and ok
+        return allok, ctx
+    if k == "anyof":
+        for d in desc[1]:
+            ok, c2 = ref(d, a, ctx, attrs)
+            if ok:
+                return True, c2
+        return False, ctx
+    raise ValueError(k)
+
+
+def has_var(desc):
+    if desc[0] == "var":
+        return True
+    return any(has_var(d) for part in desc[1:] if isinstance(part, tuple) for d in part if isinstance(d, tuple))
+
+
+def allof_conjunct_disagreement(c, bound):
+    """
+    Classifier for the known finding: along the path infer() takes, an AllOf takes the attribute inferred by its first inferable conjunct
+    although a sibling conjunct rejects it.
+    """
+    from xdsl.irdl import AllOf, ConstraintContext, ParamAttrConstraint, VarConstraint
+
+    def ctx():
+        rc = ConstraintContext()
+        for k, v in bound.items():
+            rc.set_attr_variable(k, v)
+        return rc
+
+    def accepts(x, a):
+        try:
+            x.verify(a, ctx())
+            return True
+        except Exception:
+            return False
+
+    if isinstance(c, AllOf):
+        for sub in c.attr_constrs:
+            if sub.can_infer(set(bound)):
+                try:
+                    r = sub.infer(ctx())
+                except Exception:
+                    return False
+                if accepts(sub, r) and not accepts(c, r):
+                    return True
+                return allof_conjunct_disagreement(sub, bound)
+        return False
+    if isinstance(c, VarConstraint):
+        return c.name not in bound and allof_conjunct_disagreement(c.constraint, bound)
+    if isinstance(c, ParamAttrConstraint):
+        return any(allof_conjunct_disagreement(p, bound) for p in c.param_constrs)
+    return False
+
+
+def failing_allof_binds(desc):
+    """AllOf whose failing conjunct may have bound variables first: the statement does not fix the context after a rejection; skipped for context comparisons."""
+    return False
+
+
+@rechecked
+def check_tree(seed, case):
+    from xdsl.irdl import AnyOf, ConstraintContext
+    from xdsl.utils.exceptions import PyRDLError, VerifyException
+
+    rnd = random.Random(f"{seed}/{case}")
+    attrs = pool()
+    desc = gen_desc(rnd, 3, attrs)
+    try:
+        c = build(desc, attrs)
+    except PyRDLError:
+        return None
+    inputs = {"seed": seed, "case": case}
+    for a in attrs:
+        exp, _ = ref(desc, a, {}, attrs)
+        try:
+            got = c.verifies(a)
+        except Exception as e:  # only VerifyException may come out of verify
+            return {"key": "C09/accepts", "what": f"verify raised {type(e).__name__}: {str(e)[:200]}", "constraint": repr(desc), "attribute": str(a), "inputs": inputs}
+        if got != exp:
+            return {"key": "C09/accepts", "what": f"accepts={got}, the definition says {exp}", "constraint": repr(desc), "real": repr(c)[:300], "attribute": str(a), "inputs": inputs}
+    # a second attribute checked in the context left by a first one (variables must stay equal across occurrences)
+    for _ in range(6):
+        a1, a2 = rnd.choice(attrs), rnd.choice(attrs)
+        ok1, ctx1 = ref(desc, a1, {}, attrs)
+        if not ok1:
+            continue
+        rc = ConstraintContext()
+        c.verify(a1, rc)
+        exp2, _ = ref(desc, a2, ctx1, attrs)
+        try:
+            c.verify(a2, rc)
+            got2 = True
+        except VerifyException:
+            got2 = False
+        if got2 != exp2:
+            return {"key": "C09/variables", "what": f"after accepting {a1}, {a2} accepted={got2}, the definition says {exp2}", "constraint": repr(desc), "inputs": inputs}
+    # inference
+    for bound in ({}, {"T": rnd.choice(attrs)}, {"T": rnd.choice(attrs), "U": rnd.choice(attrs)}):
+        rc = ConstraintContext()
+        for k, v in bound.items():
+            rc.set_attr_variable(k, v)
+        try:
+            can = c.can_infer(set(bound))
+        except Exception as e:
+            return {"key": "C09/infer", "what": f"can_infer raised {type(e).__name__}", "constraint": repr(desc), "inputs": inputs}
+        # "the inferred attribute satisfies it" presupposes a satisfiable constraint: checked when some pool attribute is accepted in this context
+        satisfiable = any(ref(desc, a, dict(bound), attrs)[0] for a in attrs)
+        if can and satisfiable:
+            try:
+                r = c.infer(rc)
+            except Exception as e:
+                return {"key": "C09/infer", "what": f"can_infer is True but infer raised {type(e).__name__}: {str(e)[:100]}", "constraint": repr(desc), "bound": str(bound), "inputs": inputs}
+            rc2 = ConstraintContext()
+            for k, v in bound.items():
+                rc2.set_attr_variable(k, v)
+            try:
+                c.verify(r, rc2)
+            except VerifyException as e:
+                return {"key": "C09/infer", "what": f"inferred attribute {r} is rejected by the constraint: {str(e)[:100]}", "constraint": repr(desc), "bound": str(bound),
+                        "inputs": dict(inputs, allof_takes_the_inference_of_one_conjunct_that_a_sibling_rejects=allof_conjunct_disagreement(c, bound))}
+    # union simplification: AnyOf.get / | / & over variable-free alternatives
+    alts = [gen_desc(rnd, 2, attrs) for _ in range(rnd.randrange(2, 5))]
+    alts = [d for d in alts if not has_var(d)]
+    built = []
+    for d in alts:
+        try:
+            built.append(build(d, attrs))
+        except PyRDLError:
+            return None
+    if len(built) >= 2:
+        for name, mk, comb in (("AnyOf.get", lambda: AnyOf.get(*built), any), ("|", lambda: _fold(built, lambda x, y: x | y), any), ("&", lambda: _fold(built, lambda x, y: x & y), all)):
+            try:
+                u = mk()
+            except PyRDLError:
+                continue
+            for a in attrs:
+                exp = comb(ref(d, a, {}, attrs)[0] for d in alts)
+                got = u.verifies(a)
+                if got != exp:
+                    return {"key": "C09/simplify", "what": f"{name} of {alts!r} accepts {a}: {got}, the alternatives say {exp}", "simplified": repr(u)[:300], "inputs": inputs}
+    return None
+
+
+def _fold(xs, f):
+    acc = xs[0]
+    for x in xs[1:]:
+        acc = f(acc, x)
+    return acc
+
+
+@rechecked
+def check_hints(seed):
+    from xdsl.dialects.builtin import (ArrayAttr, ComplexType, DictionaryAttr, Float32Type, FloatAttr, IndexType, IntAttr, IntegerAttr, IntegerType,
+                                       StringAttr, TupleType, VectorType)
+    from xdsl.ir import Attribute, TypeAttribute
+    from xdsl.irdl import irdl_to_attr_constraint
+    from xdsl.utils.hints import isa
+
+    hints = [IntAttr, StringAttr, IntAttr | StringAttr, ArrayAttr[IntAttr], ArrayAttr[IntAttr | StringAttr], ArrayAttr[ArrayAttr[IntAttr]],
+             IntegerAttr[IntegerType], IntegerAttr[IndexType], IntegerAttr, Attribute, TypeAttribute, ComplexType[Float32Type], FloatAttr[Float32Type],
+             ArrayAttr, DictionaryAttr, TupleType, VectorType[IntegerType], ArrayAttr[IntegerAttr[IndexType]], IntegerAttr[IntegerType | IndexType]]
+    attrs = pool() + [ArrayAttr([ArrayAttr([IntAttr(2)])]), ArrayAttr([IntegerAttr(1, IndexType())]), IntegerAttr(1, IndexType())]
+    n = 0
+    for h in hints:
+        c = irdl_to_attr_constraint(h)
+        for a in attrs:
+            n += 1
+            if c.verifies(a) != isa(a, h):
+                return {"key": "C09/hints", "what": f"constraint from hint {h} accepts {a}: {c.verifies(a)}, isa says {isa(a, h)}", "inputs": {"seed": seed}, "n": n}
+    return None
 
 
 def explore(tier, seed):
-    return {"cases": 0, "failures": [], "exhaustive": False, "bound": ""}
+    n = 600 if tier == "quick" else 6000
+    fails, seen, cases = [], set(), 0
+    f = check_hints(seed)
+    cases += 1
+    if f:
+        fails.append(f)
+    for case in range(n):
+        cases += 1
+        f = check_tree(seed, case)
+        k = (f["key"], f["inputs"].get("allof_takes_the_inference_of_one_conjunct_that_a_sibling_rejects")) if f else None
+        if f and k not in seen:
+            seen.add(k)
+            fails.append(f)
+    return {"cases": cases, "failures": fails, "exhaustive": False, "nontrivial": cases,
+            "bound": f"{n} seeded constraint trees (depth <= 3; any/eq/set/base/param/var/allof/anyof) x 23 attribute values (falsy values included), second attribute in the "
+                     "context of a first, inference under 3 variable bindings, AnyOf.get / | / & of 2-4 variable-free alternatives; 19 type hints x 26 attributes vs isa"}
+
+
+NATIVE = [("constraints-vs-reference", explore)]
